@@ -66,7 +66,7 @@ fn escapes_in_payload_tokens(src: &str, d: &Dump) -> (bool, Vec<String>) {
         if u::is_quoted_lit(t.t) {
             let q = raw.chars().next().unwrap_or(' ');
             let qq: String = [q, q].iter().collect();
-            if raw.len() > 2 && raw[1..raw.len() - 1].contains(&qq) {
+            if raw.len() > 2 && raw.get(1..).map_or(false, |r| r.contains(&qq)) {
                 any = true;
                 labels.push("escape:doubled-quote-in-literal".to_string());
             }
@@ -117,8 +117,9 @@ impl Property for Univ {
     }
     fn cases(&self, tier: Tier) -> u64 {
         let q = match self.id {
-            "C08" => 30_000,
-            _ => 20_000,
+            "C01" => 300_000,
+            "C08" => 300_000,
+            _ => 200_000,
         };
         match tier {
             Tier::Quick => q,
